@@ -126,9 +126,15 @@ class Ctx:
                  timeout=900):
         import adcio
         header = header or adcio.COQ_HEADER
+        t0 = time.time()
         vals, errs = coqrun.eval_cases(f"{self.prop}_{tag}", header, cases,
                                        shard=shard, timeout=timeout,
                                        defs=defs)
+        self.coq_s = getattr(self, "coq_s", 0.0) + time.time() - t0
+        if os.environ.get("VERIF_DEBUG"):
+            print(f"[coq_eval {tag}: {len(cases)} cases, "
+                  f"{time.time() - t0:.1f}s, {len(errs)} errors]",
+                  file=sys.stderr, flush=True)
         for e in errs:
             self.note("coq evaluation error: " + e)
         return vals, errs
